@@ -17,7 +17,7 @@ ANCHORS = ["onl/utils/timer.py", "onl/packet/tcp_generator.py"]
 RULE = ("random histories of 0-10 stop / restart(tau) calls from 1-3 other processes and from the timer's own callback "
         "(the TCP usage: restart inside the callback, scalar args), at instants before / exactly at / after expiries, "
         "several per instant, one-shot and auto-restart timers, integer and decimal timeouts, scalar / list / kwargs "
-        "arguments; non-trivial = >= 1 call exactly at an expiry instant or from inside the callback, and >= 2 firings; "
+        "arguments, callbacks returning None / False / 0 / True / a string; non-trivial = >= 1 call exactly at an expiry instant or from inside the callback, and >= 2 firings; "
         "distinct by case hash")
 ASSUMPTIONS = ["after stop() the timer never fires again, also if restart() is called later (literal reading)",
                "restart after a one-shot timer has fired may or may not arm it again"]
